@@ -2,4 +2,4 @@ CONSTANTS
   MaxText = 3
 INIT Init
 NEXT Next
-INVARIANTS RoundTrip NoForeignText TextChangeRejected Emit ResignKeepsOthers EmitResign
+INVARIANTS RoundTrip NoForeignText TextChangeRejected Emit ResignKeepsOthers EmitResign EmitMany
